@@ -78,6 +78,7 @@ def run(ctx) -> None:
     r4_class_attr_writes(ctx)
     r5_ownership(ctx)
     r9_operators_and_memos(ctx)
+    r11_config_not_shared(ctx)
     r6_singletons(ctx)
     r7_mutable_defaults(ctx)
     r8_fresh_state(ctx)
@@ -539,6 +540,36 @@ def r9_operators_and_memos(ctx) -> None:
             r.ok("C15.R10", q, f"memo: {len(stores)} store(s), {len(reads)} cached return(s), same key, stored value = returned value", loc)
     if n_memo < 2:
         raise AnalysisError(f"only {n_memo} memo functions found (2 confirmed: SigmaModifier._get_modify_type_hint, ExternalSourceBaseTransformation._get_values)")
+
+
+def r11_config_not_shared(ctx) -> None:
+    r, prog = ctx.r, ctx.prog
+    r.rule("C15.R11", "a transformation does not hand its own mutable configuration to a rule: a list/dict/set attribute of the transformation is copied before it is stored on the rule model (later items change rule fields in place — they would change the pipeline for all following rules)")
+    model = ("sigma.rule.", "sigma.correlations")
+    n = 0
+    for f in prog.functions_in("sigma.processing.transformations"):
+        if f.cls is None:
+            continue
+        for st in walk_no_nested(f.node):
+            if not isinstance(st, ast.Assign):
+                continue
+            t = st.targets[0]
+            base = t.value if isinstance(t, (ast.Attribute, ast.Subscript)) else None
+            if base is None or (isinstance(base, ast.Name) and base.id == "self"):
+                continue
+            recv = ctx.types.class_names(f.module, base if isinstance(t, ast.Attribute) else base)
+            if not any(c.startswith(model) for c in recv):
+                continue
+            v = st.value
+            if isinstance(v, ast.Attribute) and isinstance(v.value, ast.Name) and v.value.id == "self":
+                ty = (ctx.types.type_str(f.module, v) or "").lower()
+                if any(k in ty.split("[")[0] for k in ("list", "dict", "set")):
+                    n += 1
+                    r.violation("C15.R11", f.qual, stmt_head(st), f"the rule receives the transformation's own {ty.split('[')[0].split('.')[-1]} object {unparse(v)}: add_field/remove_field and field mappings change rule fields in place, so they edit the pipeline's configuration and every rule converted afterwards starts from the changed list", f"{f.module.relpath}:{st.lineno}")
+            elif isinstance(v, ast.Call) and isinstance(v.func, ast.Attribute) and v.func.attr in ("copy", "deepcopy") and isinstance(v.func.value, ast.Attribute) and unparse(v.func.value).startswith("self."):
+                n += 1
+                r.ok("C15.R11", f.qual, f"{stmt_head(st, 70)}: configuration copied", f"{f.module.relpath}:{st.lineno}")
+    r.floor("C15.R11", 1)
 
 
 def r5_ownership(ctx) -> None:
